@@ -24,6 +24,11 @@ def validity_jobs() -> List[tuple]:
     return [(C01c.unit_validity, (n,)) for n in VALIDITY] + [(C01c.unit_add_segment, ())]
 
 
+def loader_jobs(widths) -> List[tuple]:
+    """Memory_set_words: the bulk load (page-backed, before the storage decision)"""
+    return [(C01c.unit_set_words, (w,)) for w in widths]
+
+
 def add_native_functions(rep: Report, names, inst: str) -> None:
     fns = load_functions()
     for n in names:
